@@ -46,6 +46,24 @@ LEAVES = [
      [], "bool", {}),
     ("Register", "sync_update_awaits_announcements", "_core.py", "Zeroconf.update_service", ("has_call", "await_awaitable", 1),
      [], "bool", {}),
+    # "or its instance is closed" (C08): the public close calls say goodbye for everything still registered, and do so *before*
+    # `_close` sets `done` (after which async_send is a no-op).  Call-order pins: presence of the call, and its position.
+    ("Register", "async_close_unregisters_all", "asyncio.py", "AsyncZeroconf.async_close", ("has_call", "async_unregister_all_services"),
+     [], "bool", {}),
+    ("Register", "async_close_goodbyes_before_done", "asyncio.py", "AsyncZeroconf.async_close", ("call_before", "async_unregister_all_services", "_async_close"),
+     [], "bool", {}),
+    ("Register", "sync_close_unregisters_all", "_core.py", "Zeroconf.close", ("has_call", "self.unregister_all_services"),
+     [], "bool", {}),
+    ("Register", "sync_close_goodbyes_before_done", "_core.py", "Zeroconf.close", ("call_before", "self.unregister_all_services", "self._close"),
+     [], "bool", {}),
+    # D27 repair: async_unregister_service builds the goodbye packet itself, at call time (the task re-sends it), instead of letting
+    # the task read the ServiceInfo object again at each step (false on a tree without the repair)
+    ("Register", "unregister_builds_goodbye_at_call", "_core.py", "Zeroconf.async_unregister_service", ("has_call", "self.generate_service_broadcast"),
+     [], "bool", {}),
+    # the registry files an info under `info.key`, the responder looks instance questions up by `name.lower()`: the key follows the name
+    # through every rename (shape pins: the constructor and the `name` setter assign `self.key = name.lower()`)
+    ("Register", "src_info_ctor_key", "_services/info.py", "ServiceInfo.__init__", ("assign", "self.key", 0), [], "src", {}),
+    ("Register", "src_info_name_setter_key", "_services/info.py", "ServiceInfo.name@setter", ("assign", "self.key", 0), [], "src", {}),
     # the registry is keyed by name: removal is by key, never by object identity (an equal-but-distinct ServiceInfo, or the
     # handle from before update_service, withdraws the service)
     ("Register", "registry_remove_by_identity", "_services/registry.py", "ServiceRegistry.async_remove", ("has_identity_test",),
